@@ -185,6 +185,15 @@ def run_one(case, with_dask, sched=None, out_dir=None):
             dt = pyxel.run_mode(mode=obs, detector=det, pipeline=pipe, with_inherited_coords=True)
             shape, cells = dump(dt, names, case["kind"])
         res = dict(shape=shape, cells=cells, leak=int(state_hash() != before))
+        if case["kind"] in ("enc", "encs") and with_dask and cells and (sched or {}).get("scheduler") != "processes":
+            # every cell is computed exactly once (+ the one metadata run): surplus executions are added to the trace
+            # counter of the first cell (the model expects 0)
+            nmod = len({j for j, _ in case["layout"]}) if case["kind"] == "encs" else 1
+            ntask = 1
+            for n_ in shape:
+                ntask *= n_
+            res["executions"] = vp.EXEC["n"]
+            cells[0]["mem"] += abs(vp.EXEC["n"] - nmod * (ntask + 1))
         if out_dir is not None:
             res["files"] = read_files(out_dir, case["kind"])
     except Exception as ex:  # noqa: BLE001
